@@ -23,6 +23,7 @@ import (
 	"github.com/cockroachdb/errors/errorspb"
 	"github.com/cockroachdb/errors/extgrpc"
 	"github.com/cockroachdb/errors/exthttp"
+	"github.com/cockroachdb/errors/oserror"
 	"github.com/cockroachdb/redact"
 	"github.com/gogo/protobuf/types"
 	pkgerrors "github.com/pkg/errors"
@@ -61,6 +62,12 @@ type Acc struct {
 	IsUnimpl  bool         `json:"isUnimpl"`
 	HTTP      []string     `json:"http"`
 	Grpc      []string     `json:"grpc"`
+	// types found by HasType along the cause chain (catalogue names, sorted)
+	HasType []string `json:"hastype"`
+	// relational observations (compared before / after hops only)
+	OS     []bool   `json:"os"`     // oserror.IsPermission / IsExist / IsNotExist / IsTimeout
+	Frames []string `json:"frames"` // per layer with a reportable stack: hash of its frames' function names and lines
+	Source string   `json:"source"` // one-line source "file:line:fn" ("" if none)
 }
 
 func safeError(e error) (s string, ok bool) {
@@ -208,6 +215,27 @@ func AccOf(e error) *Acc {
 	a.Grpc = []string{}
 	if c := extgrpc.GetGrpcCode(e); c != codes.Unknown {
 		a.Grpc = []string{fmt.Sprintf("n%d", int(c))}
+	}
+	a.HasType = []string{}
+	for ty, sample := range cat.Samples {
+		if errors.HasType(e, sample) {
+			a.HasType = append(a.HasType, ty)
+		}
+	}
+	sort.Strings(a.HasType)
+	a.OS = []bool{oserror.IsPermission(e), oserror.IsExist(e), oserror.IsNotExist(e), oserror.IsTimeout(e)}
+	a.Frames = []string{}
+	for _, n := range VisNodes(e) {
+		if st := errors.GetReportableStackTrace(n); st != nil {
+			var b strings.Builder
+			for _, f := range st.Frames {
+				fmt.Fprintf(&b, "%s.%s:%d;", f.Module, f.Function, f.Lineno)
+			}
+			a.Frames = append(a.Frames, hash(b.String()))
+		}
+	}
+	if file, line, fn, ok := errors.GetOneLineSource(e); ok {
+		a.Source = fmt.Sprintf("%s:%d:%s", file, line, fn)
 	}
 	return a
 }
